@@ -53,8 +53,10 @@ if __name__ == "__main__":
                     if update:
                         mp = os.path.join(os.path.dirname(patch), "meta.json")
                         meta = json.load(open(mp))
-                        if meta.get("caught_by") != sorted(viol):
+                        fired = {pid: sorted({l.split()[1] for l in ls if l.startswith("VIOLATION")}) for pid, ls in sorted(viol.items())}
+                        if meta.get("caught_by") != sorted(viol) or meta.get("fired_rules") != fired:
                             meta["caught_by"] = sorted(viol)
+                            meta["fired_rules"] = fired
                             json.dump(meta, open(mp, "w"), indent=1)
                     if viol:
                         print(f"ok    seed    {patch}  caught by {sorted(viol)}" + (f"  (errors in {sorted(err)})" if err else ""))
